@@ -58,7 +58,7 @@ HUBS = ["channels are abstracted to identity + closed flag; the contents of a ch
 
 KESWARM = f("s/p2pkeswarm", "(*Swarm).getFullAddr$1$1", "(*Swarm).handleMessage$1$1", "(*Swarm).handleMessage", "(*Swarm).getFullAddr")
 DHT = f("p/kademlia", "dhtIterate", "DHTPut$1", "DHTGet$2", "DHTJoin", "DHTPut", "DHTGet", "DHTFindNode")
-IDS = f("", "(*PeerID).UnmarshalText") + f("f/x509", "EqualPublicKeys") + f("s/p2pkeswarm", "DefaultFingerprinter") + f("s/quicswarm", "DefaultFingerprinter")
+IDS = f("", "(*PeerID).UnmarshalText") + f("f/x509", "EqualPublicKeys") + f("s/p2pkeswarm", "DefaultFingerprinter", "ParseAddr") + f("s/quicswarm", "DefaultFingerprinter", "ParseAddr")
 
 QUEUE = f("s/swarmutil", "zeroMessage", "copyMessage", "(*Queue).Deliver", "(*Queue).DeliverVec", "(*Queue).Receive")
 
@@ -77,7 +77,7 @@ PROPS = [
     dict(id="C10", functions=FRAG_WIRE + FRAG_AGG + BITMAP + COLL, assumptions=COMMON + BINARY),
     dict(id="C11", functions=ASKHUB + f("p/p2pmux", "(*muxCore).serveLoop$1$1") + f("s/vswarm", "(*SecureRealm).ask") + f("p/mbapp", "(*ask).complete") + f("s/sshswarm", "(*Swarm).Ask"),
          assumptions=COMMON + HUBS + ["sshswarm's connection table and SSH transport are behind trusted contracts (getConn, Conn.Send)"]),
-    dict(id="C12", functions=TELLHUB + ASKHUB + f("s/swarmutil", "(*Queue).Receive"), assumptions=COMMON + HUBS),
+    dict(id="C12", functions=TELLHUB + ASKHUB + f("s/swarmutil", "(*Queue).Receive") + f("s/multiswarm", "(*multiSwarm).Close"), assumptions=COMMON + HUBS),
     dict(id="C13", functions=TELLHUB + ASKHUB + f("s/swarmutil", "(*Queue).Receive") + f("s/udpswarm", "(*Swarm).Receive"), assumptions=COMMON + HUBS + ["net.UDPConn.ReadFromUDP blocks on the socket only (no cancellation, no deadline set by the caller): model"]),
     dict(id="C15", functions=MUX + DISPATCH, assumptions=COMMON + BINARY + ["the channel table (sync.Map) only holds swarms built by newMuxedSwarm: trusted contract on muxCore.getSwarm"]),
     dict(id="C17", functions=IDS, assumptions=COMMON + ["encoding/base64 Decode/Encode write only their destination; EncodedLen/DecodedLen are pure (assumed)",
